@@ -186,6 +186,16 @@ CHECKS = {
              "of the resolved move over all positions/spellings is NOT decided.",
         design_ref="DESIGN.md section 4, C12",
         note=TB_COMMON + " Relies on C20 for the move accessors."),
+    "C13": dict(
+        category="other",
+        technique="static analysis: swap-parity abstract interpretation of Evaluator::evaluate (structure of the per-term double call, accumulators, difference, weighting), "
+                  "constant folding of the operator impls for oddness, shared terminal-return rule of C05, folding of the piece-square index term for both colours over 64 squares",
+        text="Decides the negation clause: evaluate(s, White) = -evaluate(s, Black) for every position, because the result is 0 plus odd contributions "
+             "(f(p) - f(!p)) * weight with perspective-independent weights and odd scaling, the stop flag is shared, and terminal returns are +/- mate by perspective "
+             "or 0. One mirror clause is decided as well: the piece-square table index of a white piece on s equals that of a black piece on the mirrored square. "
+             "Mirror symmetry of the remaining heuristic terms is numeric/geometric and NOT decided.",
+        design_ref="DESIGN.md section 4, C13",
+        note=TB_COMMON + " The term functions are assumed to use `perspective` only to select the side."),
 }
 
 NOT_BUILT_REASON = "check not built yet (see DESIGN.md for the plan)"
